@@ -104,14 +104,14 @@ performs the edit on the basic directory, keeps every setting and re-establishes
 the statement extends by induction to every AddChild history that has not yet been sharded. -/
 theorem c16_rule_partial (h : Name → List Byte) (g : Globals) (b : Basic) (n : Name) (l : Lnk)
     (hx : BasicExact g b) (hm : b.s.effMode g ≤ 2) :
-    (Rule g b.s (b.links.filter (·.1 ≠ n) ++ [(n, l)]) →
+    (Rule g b.s b.nodeStat (b.links.filter (·.1 ≠ n) ++ [(n, l)]) →
       (∃ hd, (addChild h g { dyn := true, dir := .basic b } n l).1.dir = .hamt hd) ∨
       ((addChild h g { dyn := true, dir := .basic b } n l).1 = { dyn := true, dir := .basic b } ∧
         (addChild h g { dyn := true, dir := .basic b } n l).2 ≠ .ok)) ∧
-    (¬ Rule g b.s (b.links.filter (·.1 ≠ n) ++ [(n, l)]) →
+    (¬ Rule g b.s b.nodeStat (b.links.filter (·.1 ≠ n) ++ [(n, l)]) →
       (∃ b', (addChild h g { dyn := true, dir := .basic b } n l).1.dir = .basic b' ∧
         (addChild h g { dyn := true, dir := .basic b } n l).2 = .ok ∧
-        b'.links = b.links.filter (·.1 ≠ n) ++ [(n, l)] ∧ b'.s = b.s ∧ BasicExact g b') ∨
+        b'.links = b.links.filter (·.1 ≠ n) ++ [(n, l)] ∧ b'.s = b.s ∧ b'.nodeStat = b.nodeStat ∧ BasicExact g b') ∨
       (b.s.effThr g = 0 ∧ (addChild h g { dyn := true, dir := .basic b } n l).2 = .maxlinks ∧
         (addChild h g { dyn := true, dir := .basic b } n l).1 = { dyn := true, dir := .basic b })) :=
   rule_step h g b n l hx hm
@@ -119,7 +119,7 @@ theorem c16_rule_partial (h : Name → List Byte) (g : Globals) (b : Basic) (n :
 /-- a freshly created directory satisfies the guard of `c16_rule_partial` -/
 theorem c16_fresh_exact (g : Globals) (s : Settings) (b : Basic) (hn : Basic.new g s = some b) : BasicExact g b := by
   have hcomp : ∀ b0 : Basic, b0.links = [] →
-      b0.compute g = ((if b0.s.effMode g = 1 then ((dataFieldSize b0.s.stat : Nat) : Int) else 0), 0) := by
+      b0.compute g = ((if b0.s.effMode g = 1 then ((dataFieldSize b0.nodeStat : Nat) : Int) else 0), 0) := by
     intro b0 h0
     simp only [Basic.compute, h0, List.map_nil, List.sum_nil, List.length_nil]
     by_cases h1 : b0.s.effMode g = 1
@@ -134,10 +134,11 @@ theorem c16_fresh_exact (g : Globals) (s : Settings) (b : Basic) (hn : Basic.new
     rw [hcomp b0 hl0] at hn
     have hl : b.links = [] := by rw [← hn]
     have hs : b.s = b0.s := by rw [← hn, ← hb0]
-    have he : b.est = (if b0.s.effMode g = 1 then ((dataFieldSize b0.s.stat : Nat) : Int) else 0) := by rw [← hn]
+    have he : b.est = (if b0.s.effMode g = 1 then ((dataFieldSize b0.nodeStat : Nat) : Int) else 0) := by rw [← hn]
     have ht : b.total = 0 := by rw [← hn]
+    have hns : b.nodeStat = b0.nodeStat := by rw [← hn, ← hb0]
     refine ⟨by simp [hl], by simp [hl, ht], ?_, by intro hp; rw [ht]; omega⟩
-    rw [he, hs]
+    rw [he, hs, hns]
     simp only [C15.sizeOf, hl, List.map_nil, List.sum_nil]
     by_cases h2 : b0.s.effMode g = 2
     · have : ¬ b0.s.effMode g = 1 := by rw [h2]; decide
